@@ -611,6 +611,12 @@ Definition chain_cmd (st : dstate) (cmd : tok) (args : list tok) : option (dstat
         end
     | _ => Some (st, bad)
     end
+  else if tok_is cmd "EXPORTIMPORT" then
+    match export_import (bech_of st) (unbech_of st) (d_chain st) with
+    | Ok c' => Some (upd_chain st c', [b "X ok"])
+    | Err _ _ => Some (st, [b "X invalid"])
+    | Panic => Some (st, [b "X panic"])
+    end
   else if tok_is cmd "Q" then Some (st, q_cmd st args)
   else if tok_is cmd "DUMP" then
     match args with
